@@ -26,6 +26,7 @@ func init() {
 			{Name: "validate-ignored", File: "detector/detector.go", Old: "	if err := validateAdvisories(findings); err != nil {\n		return []*Finding{}, status, err\n	}", New: "	if err := validateAdvisories(findings); err != nil {\n		_ = err\n	}", Rule: "D3-validate", Site: "Run"},
 			{Name: "getspecific-swapped", File: "packageindex/package_index.go", Old: "	m, ok := px.pkgMap[pkgType]\n	if !ok {\n		return result\n	}\n	p, ok := m[name]", New: "	m, ok := px.pkgMap[name]\n	if !ok {\n		return result\n	}\n	p, ok := m[pkgType]", Rule: "D4-index-key", Site: "GetSpecific"},
 		},
+		Neutral: c20Neutral,
 	})
 }
 
